@@ -498,7 +498,18 @@ class SymBackend(BackendBase):
             elif kind == "uf":
                 u, domains, ft = h[2], h[3], h[4]
                 table = []
-                for combo in itertools.product(*domains):
+                # a domain entry may be a label of an object created later by the program
+                doms = []
+                for dmn in domains:
+                    dd = []
+                    for c in dmn:
+                        if isinstance(c, str):
+                            if c in self.objects:
+                                dd.append(self.objects[c])
+                        else:
+                            dd.append(c)
+                    doms.append(dd)
+                for combo in itertools.product(*doms):
                     t = ev(u.f(*[z3.IntVal(oid_of(c)) for c in combo]))
                     if u.ret == "bool":
                         val = z3.is_true(t)
